@@ -54,7 +54,7 @@ theorem writeHeader_inv {c : Cfg} {s : St} {D : List Byte} {w : Nat} (i : Inv c 
     · simp only [writeHeader, if_true]; exact hfr
 
 theorem openW_inv (c : Cfg) (stale : Int) : Inv c (openW c stale) [] 0 := by
-  refine ⟨⟨hdrRaw c 0 (-1) stale, hdrRaw_length c _ _ _, ?_⟩, ?_, ?_, rfl, rfl, by simp⟩
+  refine ⟨⟨hdrRaw c 0 0 0, hdrRaw_length c _ _ _, ?_⟩, ?_, ?_, rfl, rfl, by simp⟩
   · simp [openW, writeHeader, writeAt]
   · simp [openW, writeHeader, writeAt, hdrRaw_length]
   · simp [openW, writeHeader, hdrRaw_length]
